@@ -355,7 +355,11 @@ class WebSocket:
             await self._send(
                 {
                     'type': EventType.WS_SEND,
-                    'bytes': self._mh_bin_serialize(media),
+                    # NOTE: The handler may return a bytearray or a memoryview
+                    #   (see BinaryBaseHandlerWS.serialize); the ASGI event must
+                    #   carry an immutable bytes object that does not alias a
+                    #   buffer the handler may reuse.
+                    'bytes': bytes(self._mh_bin_serialize(media)),
                 }
             )
 
